@@ -81,6 +81,8 @@ macro_rules! b64_diff {
 }
 b64_diff!(b64_diff_12, 12, 16, 18);
 b64_diff!(b64_diff_33, 33, 44, 46);
+b64_diff!(b64_diff_96, 96, 128, 130);
+b64_diff!(b64_diff_255, 255, 340, 342);
 
 /// the challenge case: exactly 32 bytes into a 43-byte buffer fills it completely with the RFC encoding
 #[kani::proof]
@@ -253,14 +255,14 @@ fn as_str(b: &[u8]) -> &str {
     // the validators only look at the bytes
     unsafe { core::str::from_utf8_unchecked(b) }
 }
-/// returns only for the 12 bytes "webauthn.get" (symbolic length 0..=14, symbolic bytes)
+/// returns only for the 12 bytes "webauthn.get" (symbolic length 0..=16, symbolic bytes)
 #[kani::proof]
 #[kani::unwind(20)]
 pub fn webauthn_type_validator() {
     let e = Env::default();
-    let buf: [u8; 14] = kani::any();
+    let buf: [u8; 16] = kani::any();
     let n: usize = kani::any();
-    kani::assume(n <= 14);
+    kani::assume(n <= 16);
     let cdj = ClientDataJson { challenge: "", type_field: as_str(&buf[..n]) };
     webauthn::validate_expected_type(&e, &cdj);
     let want = b"webauthn.get";
@@ -555,11 +557,44 @@ fn tpl_with_origin(cd: &mut [u8], ty: &[u8; 12], ch: &[u8; 43]) -> usize {
     o = put(cd, o, ch);
     put(cd, o, b"\",\"origin\":\"https://example.com\"}")
 }
-// SYMBOLIC field contents (12 + 43 symbolic bytes between concrete structure). NOT REGISTERED: out of reach, see
-// checks/reg_merkle.py (each symbolic byte may be a quote or a backslash, so after the first string value the
-// parser's cursor is symbolic and every later loop iteration forks into UTF-8 validation and back-slash counting).
+// SYMBOLIC field contents, everything symbolic (12 + 43 symbolic bytes between concrete structure). NOT REGISTERED:
+// out of reach, see checks/reg_merkle.py (each symbolic byte may be a quote or a backslash, so after the first
+// string value the parser's cursor is symbolic and every later loop iteration forks into back-slash counting).
 webauthn_template!(webauthn_verify_tc, webauthn_verify_tc_accepts, 100, 81, tpl_type_challenge);
-webauthn_template!(webauthn_verify_ct, webauthn_verify_ct_accepts, 100, 81, tpl_challenge_type);
+
+/// `{"type":"webauthn.get","challenge":"<43 SYMBOLIC bytes>"}`: the symbolic member is the LAST one, so the parser's
+/// cursor is concrete until the string that may end anywhere (quotes, back-slashes, non-ASCII bytes included)
+#[kani::proof]
+#[kani::stub(core::str::from_utf8, crate::verifiers::from_utf8_stub)]
+#[kani::unwind(60)]
+pub fn webauthn_verify_symbolic_challenge() {
+    let e = Env::default();
+    let ty: [u8; 12] = *b"webauthn.get";
+    let ch: [u8; 43] = kani::any();
+    let mut cd = [0u8; 81];
+    let n = tpl_type_challenge(&mut cd, &ty, &ch);
+    assert!(n == 81);
+    let a = mk_assertion(&e, &cd);
+    let r = webauthn::verify(&e, &a.payload, &a.pub_key, &a.sig);
+    verify_post(&e, r, &a, &ty, &ch);
+    witness!(true, "accepted");
+}
+/// `{"challenge":"<base64url(doc_payload())>","type":"<12 SYMBOLIC bytes>"}`
+#[kani::proof]
+#[kani::stub(core::str::from_utf8, crate::verifiers::from_utf8_stub)]
+#[kani::unwind(60)]
+pub fn webauthn_verify_symbolic_type() {
+    let e = Env::default();
+    let ty: [u8; 12] = kani::any();
+    let ch = ref_b64_32(&doc_payload());
+    let mut cd = [0u8; 81];
+    let n = tpl_challenge_type(&mut cd, &ty, &ch);
+    assert!(n == 81);
+    let a = mk_assertion(&e, &cd);
+    let r = webauthn::verify(&e, &a.payload, &a.pub_key, &a.sig);
+    verify_post(&e, r, &a, &ty, &ch);
+    witness!(true, "accepted");
+}
 
 // ---------------------------------------------------------------- webauthn::verify on CONCRETE client-data documents
 // The JSON text is concrete (so the real parser runs deterministically); payload, authenticator data, public
